@@ -2,7 +2,7 @@
 From Coq Require Import List NArith Bool Arith.
 From Storage Require Import Base.Bytes Db.RwLock Db.RwLockProofs Db.Content Db.Timeline Db.Snapshot Db.SnapshotProofs.
 From Storage Require Import Db.Reader Db.ReaderProofs Db.RestoreX Db.RestoreXProofs Db.RestoreJoin Db.RestoreJoinProofs.
-From Storage Require Import Db.SnapPath Db.SnapPathProofs.
+From Storage Require Import Db.SnapPath Db.SnapPathProofs Db.RestoreMeta Db.RestoreMetaProofs.
 Import ListNotations.
 Open Scope N_scope.
 
@@ -228,3 +228,65 @@ Example split_snapshot_refuted :
   /\ file_at bad (actual_path ex_env t_a) = Some (mark (fresh 0) [])
   /\ file_at bad (template_path ex_env t_a) = Some [([b_root], EBucket); ([b_root; k_a], EVal [1])].
 Proof. vm_compute. repeat split. Qed.
+
+(* ---------------- metadata readers during a restore (Db/RestoreMeta.v) ---------------- *)
+
+(* a database that was restored from snapshot "s" before; a second snapshot "s+" of a later state
+   is restored through a reader that asks GetSnapshotId, GetTimelineId and walks the database
+   while it streams (positions 0, 3 and 8 of 8 bytes; the call at 9 is never made); afterwards
+   GetSnapshotId reports "s+", the call during the restore reported "s" *)
+Definition ex_plain_script : script := {| pre := [3; 0]%nat; rest := 2%nat; eof_with_data := true; fail_at := None; fail_with_data := false |}.
+Definition ex_meta_ops : list mop :=
+  [ MP (PX (XBase (OTx [WPut [b_root] k_a [1]] true))); MP (PX (XBase (OSnap SKPlain)));
+    MP (PX (XBase (ORestore 0)));
+    MP (PX (XBase (OTx [WPut [b_root] k_a [2]] true))); MP (PX (XBase (OSnap SKInView)));
+    MP (PX (XBase (OTx [WPut [b_root] k_a [3]] true))) ].
+Definition ex_meta_cbs : list (nat * mcall) :=
+  [ (0%nat, MSnapId); (3%nat, MTimeline MDefault (Some [84])); (8%nat, MView); (8%nat, MSnapId); (9%nat, MStats) ].
+
+Example ex_reader_calls :
+  let p := mrun (fun _ => 7%nat) empty_pdb ex_meta_ops in
+  let r := mstep (fun _ => 7%nat) p (MRestoreReader 1 8 ex_plain_script ex_meta_cbs) in
+  (match snd r with
+   | MoRestore [MoSnapId a; MoTimeline t true; MoView v; MoSnapId b] (XoRestored []) =>
+       a = Some (fresh 0) /\ b = Some (fresh 0) /\ t = Some [84] /\ lookup [b_root; k_a] v = Some (EVal [3])
+   | _ => False
+   end)
+  /\ get_snapshot_id (live (base (px (fst r)))) = Some (fresh 1)
+  /\ lookup [b_root; k_a] (live (base (px (fst r)))) = Some (EVal [2])
+  /\ lookup p_timelineId (live (base (px (fst r)))) = None
+  /\ failing ex_plain_script 8 = false
+  /\ meta_wf (live (base (px p))).
+Proof. vm_compute. repeat split; try reflexivity. discriminate. Qed.
+
+(* the same restore refused because the reader fails after 5 bytes: the calls at 0 and 3 were made
+   (the timeline id they stored stays), the others were not, the content is untouched *)
+Example ex_reader_calls_refused :
+  let sc := {| pre := []; rest := 2%nat; eof_with_data := false; fail_at := Some 5%nat; fail_with_data := true |} in
+  let p := mrun (fun _ => 7%nat) empty_pdb ex_meta_ops in
+  let r := mstep (fun _ => 7%nat) p (MRestoreReader 1 8 sc ex_meta_cbs) in
+  snd r = MoRestore [MoSnapId (Some (fresh 0)); MoTimeline (Some [84]) true] XoRefused
+  /\ lookup [b_root; k_a] (live (base (px (fst r)))) = Some (EVal [3])
+  /\ lookup p_timelineId (live (base (px (fst r)))) = Some (EVal (enc_string [84])).
+Proof. vm_compute. repeat split. Qed.
+
+(* pollers racing the restore: two ask before the swap, two after *)
+Example ex_racing_pollers :
+  let p := mrun (fun _ => 7%nat) empty_pdb ex_meta_ops in
+  let '(x', o1, o2) := racing_restore (px p) (mark (fresh 1) [([b_root], EBucket)])
+                         [MSnapId; MTimeline MForceReset (Some [80]); MSnapId] [MSnapId; MTimeline MDefault (Some [81]); MSnapId] in
+  o1 = [MoSnapId (Some (fresh 0)); MoTimeline (Some [80]) true; MoSnapId (Some (fresh 0))]
+  /\ o2 = [MoSnapId (Some (fresh 1)); MoTimeline (Some [81]) true; MoSnapId (Some (fresh 1))].
+Proof. vm_compute. split; reflexivity. Qed.
+
+(* the seeded variant: GetSnapshotId serves a cached id, the cache is cleared at the top of
+   RestoreFromReader.  Without a poll while the snapshot streams the restored id is reported;
+   with one the OLD id is reported for ever after the restore. *)
+Example cached_snapshot_id_refuted :
+  let old := mark (fresh 0) [] in
+  let new := mark (fresh 1) [] in
+  cached_restore_then_ask old new false = Some (fresh 1)
+  /\ cached_restore_then_ask old new true = Some (fresh 0)
+  /\ get_snapshot_id new = Some (fresh 1)
+  /\ fresh 0 <> fresh 1.
+Proof. vm_compute. repeat split. discriminate. Qed.
